@@ -81,6 +81,15 @@ def check(tr):
                                 lo, hi = before, before + len(lay) - 1
                                 break
                             before += len(lay)
+                        cap = tr.scen["scheduler"].get("max_num_samples")
+                        if cap is not None and cap < n:
+                            # documented: only the first `cap` items of the sort have distinct priorities, all others share
+                            # the lowest one (rank = number of items with a strictly better priority = cap)
+                            if lo >= cap:
+                                lo = hi = cap
+                            elif hi >= cap:
+                                hi = cap
+                            probes["probe.moasha_capped_priorities"] = probes.get("probe.moasha_capped_priorities", 0) + 1
                     else:
                         sc = [p[0] for p in pts] if prio == "fixed" else [sum(p) / len(p) for p in pts]
                         lo = sum(1 for x in sc[:-1] if x < sc[-1] and not close(x, sc[-1]))
@@ -150,6 +159,22 @@ def check(tr):
         seq_layers = [layer_of[int(i)] for i in order]
         if seq_layers != sorted(seq_layers):
             bad("R1.sort_layers", "nondominated_sort ranks a point of a later Pareto layer before one of an earlier layer", None)
+            break
+        # the sort with a budget: min(k, N) distinct indices, earlier layers complete before a later one is touched
+        nX = len(X)
+        sizes = [len(lay) for lay in L]
+        ks = sorted({1, nX - 1, nX, nX + 1, sizes[0], sizes[0] + (sizes[1] if len(sizes) > 1 else 0), nX + sizes[-1] - 1} - {0})
+        stop = False
+        for k in ks:
+            part = [int(i) for i in nondominated_sort(X, dim=0, max_items=k)]
+            lay_seq = [layer_of[i] for i in part]
+            full_before = all(set(L[li]) <= set(part) for li in set(lay_seq) if li < max(lay_seq)) if part else True
+            if len(part) != min(k, nX) or len(set(part)) != len(part) or lay_seq != sorted(lay_seq) or not full_before:
+                bad("R1.sort_budget", "nondominated_sort(max_items=%d) on %d points (layer sizes %s) returns %d indices %s" % (
+                    k, nX, sizes, len(part), part[:12]), None)
+                stop = True
+                break
+        if stop:
             break
     probes["probe.pareto_rung_contents_checked"] = probes.get("probe.pareto_rung_contents_checked", 0) + pure_checked
     return out
